@@ -160,7 +160,7 @@ def install():
 
         def rootfn(builder, *a, **k):
             state['inv'] = True
-            t.ev(ev='root_begin')
+            t.ev(ev='root_begin', sent='', recv='')
             try:
                 v = func(builder, *a, **k)
             except BaseException as x:
